@@ -23,7 +23,10 @@ META = dict(
                "the stored values are exactly those captured by the most recent Pause - the output values in effect "
                "immediately before it, for the registers Pause overwrites - that Pause ran under the current run "
                "id and no Unpause has run since; Unpause writes exactly these values back (whatever was written "
-               "during the pause), touches no other output, and clears the store. Model tied to the real Engine by "
+               "during the pause), touches no other output, and clears the store; an error that strikes while the engine is "
+               "already paused leaves the stored values untouched; while the engine is not paused nothing is stored, "
+               "so an Unpause with no pause in effect (an `Unpause` instruction, the timer of a timed Pause that was "
+               "ended early) changes no output. Model tied to the real Engine by "
                "differential execution after every operation.",
     level_note="The theorems are about the repaired code (fixes/C09-clear-prev-state-with-run-id.diff): on the code "
                "as it is `_prev_state` survives Stop/Restart, so an error pause (or a method-issued Unpause) in the "
@@ -41,7 +44,8 @@ META = dict(
 MODULE = "OPM.Properties.C09"
 REQUIRED = ["OPM.C09.unpause_restores_latest_pause_of_same_run", "OPM.C09.prevOK_reach", "OPM.C09.prevOK_run",
             "OPM.C09.pause_captures", "OPM.C09.unpause_applies", "OPM.C09.pause_unpause_roundtrip",
-            "OPM.C09.overlay_capture_applySafe", "OPM.C09.asIs_counterexample"]
+            "OPM.C09.overlay_capture_applySafe", "OPM.C09.error_while_paused_keeps_snapshot",
+            "OPM.C09.unpause_without_pause_changes_nothing", "OPM.C09.asIs_counterexample"]
 
 T = ["tick", 8, 8, 0]
 WITNESS = {"method": "Mark: a",
@@ -52,9 +56,12 @@ WITNESS = {"method": "Mark: a",
 def oracle(case: dict, recs: list[dict]) -> list[Failure]:
     """Pause periods of the implementation: onset = the `paused` flag goes up, release = it goes down while the
     same run goes on. A period opened by exactly one Pause command must end with the safe-valued outputs back at
-    their values from before the onset; a period opened by an error (nothing captured), and an Unpause executed
-    while not paused, must not change any output. Periods with several Pause commands or Pause + error at the
-    onset are not judged."""
+    their values from before the onset - whatever errors struck during the period (they must not disturb the
+    snapshot); a period opened by an error must end with the outputs untouched or restored to their values from
+    before it; and a tick of a running, not paused run in which no Pause is pending must not change any output
+    (an Unpause with no pause in effect - an `Unpause` instruction, the timer of a timed Pause that was ended
+    early - applies nothing). Periods with several Pause commands or Pause + error at the onset are not judged.
+    (C09 cases change outputs only by `set` operations between ticks, never inside a tick.)"""
     from harness.runstate import SAFES
     out: list[Failure] = []
     safe_idx = [i for i, s in enumerate(SAFES) if s is not None]
@@ -90,10 +97,10 @@ def oracle(case: dict, recs: list[dict]) -> list[Failure]:
                 period = {"kind": "ambiguous"}
             unresolved = 0
         elif a["paused"] and b["paused"]:
-            if (unresolved > 0 or error) and period is not None:
-                period = {"kind": "ambiguous"}       # something else happened inside the period
+            if unresolved > 0 and period is not None:
+                period = {"kind": "ambiguous"}       # another Pause command may have run inside the period
         elif a["paused"] and not b["paused"]:
-            if same_run and period is not None and not error and unresolved == 0:
+            if same_run and period is not None and unresolved == 0:
                 if period["kind"] == "cmd":
                     bad = [j for j in safe_idx if b["outs"][j] != period["expected"][j]]
                     if bad:
@@ -108,10 +115,14 @@ def oracle(case: dict, recs: list[dict]) -> list[Failure]:
                              f"error pause began with outputs {period['expected']}, Unpause changed "
                              f"{a['outs']} -> {b['outs']}")
             period = None
-        elif n_unpause_m > 0 and unresolved == 0 and not error and same_run:
+        elif op[0] == "tick" and unresolved == 0 and not error and same_run:
             if b["outs"] != a["outs"]:
-                fail("unpause-applies-stale-values", i,
-                     f"Unpause while not paused changed outputs {a['outs']} -> {b['outs']}")
+                if n_unpause_m > 0:
+                    fail("unpause-applies-stale-values", i,
+                         f"Unpause while not paused changed outputs {a['outs']} -> {b['outs']}")
+                else:
+                    fail("stale-values-applied-with-no-pause-in-effect", i,
+                         f"no pause in effect and no Pause pending, yet outputs {a['outs']} -> {b['outs']}")
         if not b["started"]:
             period = None
             unresolved = 0
@@ -185,6 +196,71 @@ def gen_cross_run(rng) -> dict:
     return {"method": method, "ops": ops}
 
 
+def gen_early_unpause(rng) -> dict:
+    """Templates around an Unpause that finds nothing to restore: a timed method Pause ended early by the user
+    (its timer later calls Unpause again), an `Unpause` instruction after an earlier pause cycle, errors while
+    paused; outputs are changed at every stage."""
+    from harness import runstate as R
+    val = [100]
+
+    def sets(lo, hi):
+        out = []
+        for _ in range(rng.randrange(lo, hi + 1)):
+            val[0] += 1
+            out.append(["set", rng.randrange(0, 3), val[0]])
+        return out
+    kind = rng.randrange(0, 4)
+    if kind == 0:
+        method = rng.choice(["Pause: 1s\nMark: b", "Wait: 0.25s\nPause: 2s\nMark: b", "Pause: 3s\nWait: 5s"])
+    elif kind == 1:
+        method = rng.choice(["Pause: 0.5s\nWait: 1s\nUnpause\nMark: c", "Wait: 0.5s\nPause: 0.25s\nUnpause",
+                             "Wait: 1.5s\nUnpause\nWait: 1s\nUnpause"])
+    else:
+        method = "Mark: a\nWait: 10s"
+    sim = R.Sim(method)
+    ops: list[list] = []
+
+    def do(op):
+        ops.append(op)
+        return sim.do(op, "c09")[2]
+    try:
+        raw = do(["user", "Start"])
+        for op in [list(T)] + sets(1, 2):
+            raw = do(op)
+        if kind in (0, 1):
+            for _ in range(8):                       # until the method's timed Pause is in effect
+                if raw["paused"]:
+                    break
+                raw = do(["tick", 2, 2, 0])
+            for op in sets(0, 1):
+                raw = do(op)
+            if kind == 0 or rng.random() < 0.5:
+                raw = do(["user", "Unpause"])        # ended early; the Pause instance stays resident
+                raw = do(["tick", 2, 2, 0])
+            for op in sets(1, 2):
+                raw = do(op)
+            for _ in range(rng.randrange(4, 9)):     # the timer runs out / the method reaches its Unpause
+                raw = do(rng.choice([list(T), ["tick", 4, 4, 0]]))
+                if rng.random() < 0.3:
+                    for op in sets(1, 1):
+                        raw = do(op)
+        else:
+            raw = do(["user", "Pause"])
+            raw = do(list(T))
+            for op in sets(0, 1):
+                raw = do(op)
+            for _ in range(rng.randrange(1, 3)):     # errors while paused must not disturb the snapshot
+                raw = do(rng.choice([["errapi"], ["tick", 8, 8, 1], list(T)]))
+            raw = do(["user", "Unpause"])
+            raw = do(list(T))
+            if kind == 3:                            # a second cycle
+                for op in sets(1, 1) + [["user", "Pause"], list(T), ["errapi"], list(T), ["user", "Unpause"], list(T)]:
+                    raw = do(op)
+    finally:
+        sim.close()
+    return {"method": method, "ops": ops}
+
+
 def gen_cases(ctx: Check) -> dict[str, list[dict]]:
     from harness import runstate as R
     rng = ctx.rng
@@ -199,7 +275,16 @@ def gen_cases(ctx: Check) -> dict[str, list[dict]]:
             for pos, j in enumerate(seq):
                 ops.append(["set", 0, 40 + pos] if j == len(base) else list(base[j]))
             ex.append({"method": "Mark: a", "ops": ops})
+    # the same alphabet inside a pause in effect (errors while paused, Unpause, second Pause, Stop, ...)
+    for k in range(0, ctx.n(3, 4) + 1):
+        for seq in itertools.product(range(len(base) + 1), repeat=k):
+            ops = [["user", "Start"], list(T), ["set", 0, 30], ["set", 1, 31], ["user", "Pause"], list(T)]
+            for pos, j in enumerate(seq):
+                ops.append(["set", 0, 50 + pos] if j == len(base) else list(base[j]))
+            ops.append(list(T))
+            ex.append({"method": "Mark: a", "ops": ops})
     streams["exhaustive"] = ex
+    streams["early-unpause"] = [gen_early_unpause(rng) for _ in range(ctx.n(120, 2500))]
     streams["cross-run"] = [gen_cross_run(rng) for _ in range(ctx.n(150, 3000))]
     streams["histories"] = [gen_history(rng, rng.randrange(6, ctx.n(13, 31))) for _ in range(ctx.n(300, 10000))]
     streams["sessions"] = [R.gen_session(rng, rng.randrange(6, 31), malformed=(i % 3 == 0), errors=True)
@@ -218,7 +303,10 @@ def run(ctx: Check) -> int:
     streams = {"corpus": corpus}
     streams.update(gen_cases(ctx))
     ctx.rule = ("exhaustive: all sequences <=4/5 over {Start, Stop, Pause, Unpause, Restart, tick, error pause, "
-                "output change} after Start, tick, output change; cross-run: templated two-run histories (first run ends "
+                "output change} after Start, tick, output change, and <=3/4 inside a pause in effect; early-unpause: "
+                "templates (timed method Pause ended early by the user and its timer running out later, `Unpause` "
+                "instruction after an earlier pause cycle, errors while paused, second cycle) with output changes at "
+                "every stage; cross-run: templated two-run histories (first run ends "
                 "by Stop/Restart with or without a pause in effect, second run has an error pause / a method Unpause "
                 "/ a normal pause) with random fillers; histories: adaptive sequences of runs / pauses "
                 "(user and method, timed and not) / unpauses / stops / restarts / error pauses with output changes "
